@@ -266,6 +266,7 @@ def installation(ctx):
         def eval_call(c, env, f_):
             if isinstance(c.func, ast.Name) and isinstance(env.get(c.func.id), Obj) and env[c.func.id] in bound.values():
                 calls[env[c.func.id].attrs["__name__"]] += 1
+                log.append(("call", env[c.func.id].attrs["__name__"]))
                 return None
             return orig_call(c, env, f_)
         it.eval_call = eval_call
@@ -289,6 +290,10 @@ def installation(ctx):
                 problems.append("construction: the two value dependencies a and b of one method on the same object are not watched by ONE watcher (an update of both would run the method twice)")
             if calls != {"meth_sub": 1, "meth_other": 0, "meth_plain": 1, "meth_two": 0}:
                 problems.append("construction: on_init methods are called %s, specification: each on_init method exactly once" % calls)
+            first_call = next((i for i, e in enumerate(log) if e[0] == "call"), None)
+            last_watch = max([i for i, e in enumerate(log) if e[0] == "watch"] or [-1])
+            if first_call is not None and first_call < last_watch:
+                problems.append("construction: the on_init method %s runs before the watchers of the methods registered after it are installed: what it assigns is missed by them" % log[first_call][1])
             rec = top.attrs["_param__private"].attrs["dynamic_watchers"]
             if len(rec.get("meth_sub", [])) != 1 or len(rec.get("meth_other", [])) != 1 or len(rec.get("meth_two", [])) != 2:
                 problems.append("construction: the watchers of dynamic dependencies are not recorded under their method (they can never be moved to a newly attached sub-object)")
